@@ -515,9 +515,9 @@ def aluCompute (i : Instr) (x y : Option Int) : Option (Option Bool × Option In
     else match x, y with
       | some a, some b =>
         if i.op = .jalr then
-          -- `(alu_in_1 + alu_in_2) & (~1)` on unbounded Python ints: no 32-bit wrap (finding F2)
-          let t := a + b
-          some (none, some (t - t % 2))
+          -- `int(fixedint.UInt32(alu_in_1 + alu_in_2)) & (~1)`
+          let t := wrapU (a + b)
+          some (none, some ((t - t % 2 : Nat) : Int))
         else if i.op = .slti then some (none, some (if wrapS a < wrapS b then 1 else 0))
         else some (none, some (aluRI i.op (wrapU a) b : Nat))
       | _, _ => none
@@ -674,7 +674,7 @@ def singleStep (s : St) : StepOut :=
           else (b.st, none)
         match s3 with
         | (st', some ft) => { st := st', fault := some (addr, ft) }
-        | (st', none) => { st := { st' with pc := st'.pc + 4 }, fault := none }
+        | (st', none) => { st := { st' with pc := (st'.pc + 4) % 4294967296 }, fault := none }
 
 /-- `pipeline.is_done()` in single-stage mode: the single latch is excluded by `[:-1]`. -/
 def singleDone (s : St) : Bool := s.exitCode.isSome || (s.imem.instrAt s.pc).isNone
